@@ -14,9 +14,30 @@
     callbacks/callbacks.go    create / update pipeline order: before-hooks, save_before_associations (belongs-to),
                               the statement, save_after_associations (has-one, has-many, many2many), after-hooks
                                                             -> Gorm.saveBatch
-  Core Lean only.
+
+  The three repairs of this code (F27 element-wise guard, F28 the statement's own value registered when the visit map
+  is created, F29 pointer de-duplication before the nested Create) are PARAMETERS of the model (`VFix`); which of them
+  the tree under check carries is a regenerated fact (Gen/VisitFix.lean -> `Gorm.genVisitFix`).
+  Core Lean + Gen.VisitFix only.
 -/
+import GormModel.Gen.VisitFix
 namespace Gorm
+
+/-- which repairs the association-save code carries.
+    `filter`   (F27) saveAssociations: `for i … { if !checkAssociationsSaved(db, rValues.Index(i)) { unsaved = append(unsaved, …) } }`
+               -- the records are tested one by one and only the ones not saved yet are created;
+    `root`     (F28) checkAssociationsSaved, no map yet: `loadOrStoreVisitMap(&vistMap, db.Statement.ReflectValue)` before
+               the look-up, and the look-up's answer is returned (not the constant false);
+    `distinct` (F29) saveAssociations: `values = distinctPointers(rValues).Interface()`.
+    All false = the code of the pinned commit. -/
+structure VFix where
+  filter : Bool := false
+  root : Bool := false
+  distinct : Bool := false
+deriving Repr, DecidableEq
+
+/-- the repairs present in the tree the facts were regenerated from -/
+def genVisitFix : VFix := { filter := Gen.visitFilter, root := Gen.visitRoot, distinct := Gen.visitDistinct }
 
 /-- the in-memory association graph of one operation.  A node is an in-memory record (identity = address, what
     `visitMap` keys on).  `adj[n][s]` = the records held by relation slot `s` of record `n`, in field / slice order.
@@ -54,6 +75,31 @@ def checkSaved (elems : List Nat) : Option (List Nat) → Bool × Option (List N
   | some V => let r := loadOrStore V elems; (r.1, some r.2)
   | none => (false, some (loadOrStore [] elems).2)
 
+/-- `checkAssociationsSaved` with the F28 repair as a parameter: when there is no visit map yet and `rootFix`, the map
+    is created with the statement's own value(s) `own` (db.Statement.ReflectValue) registered and the look-up of
+    `elems` in THAT map is the answer. -/
+def checkSavedR (rootFix : Bool) (own elems : List Nat) : Option (List Nat) → Bool × Option (List Nat)
+  | none =>
+    if rootFix then
+      let r := loadOrStore (loadOrStore [] own).2 elems
+      (r.1, some r.2)
+    else checkSaved elems none
+  | some V => checkSaved elems (some V)
+
+/-- the loop of the F27 repair: `checkAssociationsSaved(db, rValues.Index(i))` for every element in order; the elements
+    answered "not saved" are kept (each look-up also registers, so a pointer that occurs twice is kept once) -/
+def filterSaved (rootFix : Bool) (own : List Nat) : List Nat → Option (List Nat) → List Nat × Option (List Nat)
+  | [], v => ([], v)
+  | e :: rest, v =>
+    let r := checkSavedR rootFix own [e] v
+    let q := filterSaved rootFix own rest r.2
+    (if r.1 then q.1 else e :: q.1, q.2)
+
+/-- `distinctPointers` (F29 repair): the first occurrence of every pointer -/
+def distinctPtr : List Nat → List Nat → List Nat
+  | [], _ => []
+  | e :: rest, seen => if seen.contains e then distinctPtr rest seen else e :: distinctPtr rest (e :: seen)
+
 structure VSt where
   /-- the visit map shared (through Statement.Settings) by all nested saves of the operation -/
   visited : Option (List Nat) := none
@@ -62,10 +108,16 @@ structure VSt where
   log : List VEv := []
   /-- the recursion fuel never ran out -/
   ok : Bool := true
-  /-- no executed association batch mixed registered with unregistered records, held a record twice, or held a
-      record of the operation's own (root) value -/
-  clean : Bool := true
+  /-- F27 pattern never occurred: no executed association batch held a record that was registered in the visit map -/
+  cleanMixed : Bool := true
+  /-- F28 pattern never occurred: no executed association batch held an UNREGISTERED record of the operation's own value -/
+  cleanRoot : Bool := true
+  /-- F29 pattern never occurred: no executed association batch held a record twice -/
+  cleanDup : Bool := true
 deriving Repr
+
+/-- none of the three listed patterns occurred -/
+def VSt.clean (st : VSt) : Bool := st.cleanMixed && st.cleanRoot && st.cleanDup
 
 def VGraph.targets (g : VGraph) (n s : Nat) : List Nat :=
   ((g.adj.getD n []).getD s []).filter (fun t => decide (t < g.size))
@@ -86,34 +138,60 @@ def nodupB : List Nat → Bool
   | [] => true
   | e :: rest => !rest.contains e && nodupB rest
 
-/-- `if elems.Len() > 0 { saveAssociations(db, rel, elems, …) }`: skipped when every record is registered already,
-    otherwise ALL of `elems` are created by one nested Create (`rec`) sharing the visit map. -/
-def saveAssoc (roots : List Nat) (rec : List Nat → VSt → VSt) (elems : List Nat) (st : VSt) : VSt :=
+/-- the records registered in the visit map as `checkAssociationsSaved` sees them: the map's content, or -- no map yet,
+    F28 repair present -- the statement's own value(s) the new map starts with -/
+def visitBase (rootFix : Bool) (own : List Nat) : Option (List Nat) → List Nat
+  | some V => V
+  | none => if rootFix then own else []
+
+/-- the state in which the nested Create of `values` starts: the visit map after the guard, and the three pattern
+    flags (`B` = the records that were registered when the guard ran) -/
+def VSt.enter (st : VSt) (roots B values : List Nat) (v' : Option (List Nat)) : VSt :=
+  { st with
+    visited := v',
+    cleanMixed := st.cleanMixed && values.all (fun e => !B.contains e),
+    cleanRoot := st.cleanRoot && values.all (fun e => !(roots.contains e && !B.contains e)),
+    cleanDup := st.cleanDup && nodupB values }
+
+/-- the guard of saveAssociations: (records to create, "nothing to save", visit map afterwards) -/
+def saveGuard (fx : VFix) (own elems : List Nat) (v : Option (List Nat)) : List Nat × Bool × Option (List Nat) :=
+  if fx.filter then
+    let q := filterSaved fx.root own elems v
+    (q.1, q.1.isEmpty, q.2)
+  else
+    let q := checkSavedR fx.root own elems v
+    (elems, q.1, q.2)
+
+/-- `if elems.Len() > 0 { saveAssociations(db, rel, elems, …) }`.
+    Unrepaired: skipped when every record is registered already, otherwise ALL of `elems` are created by one nested
+    Create (`rec`) sharing the visit map.  With `fx.filter` only the records not registered yet are created (skipped when
+    none is left); with `fx.distinct` the list handed to the nested Create is de-duplicated.  `own` = the values of the
+    statement that runs this callback (db.Statement.ReflectValue). -/
+def saveAssoc (fx : VFix) (roots own : List Nat) (rec : List Nat → VSt → VSt) (elems : List Nat) (st : VSt) : VSt :=
   if elems.isEmpty then st
   else
-    let r := checkSaved elems st.visited
-    if r.1 then { st with visited := r.2 }
+    let r := saveGuard fx own elems st.visited
+    if r.2.1 then { st with visited := r.2.2 }
     else
-      let V := st.visited.getD []
-      let cleanNow := elems.all (fun e => !V.contains e && !roots.contains e) && nodupB elems
-      rec elems { st with visited := r.2, clean := st.clean && cleanNow }
+      rec (if fx.distinct then distinctPtr r.1 [] else r.1)
+        (st.enter roots (visitBase fx.root own st.visited) (if fx.distinct then distinctPtr r.1 [] else r.1) r.2.2)
 
 /-- one Create/Update pipeline run over the values `batch` -/
-def saveBatch (g : VGraph) (roots : List Nat) : Nat → List Nat → VSt → VSt
+def saveBatch (fx : VFix) (g : VGraph) (roots : List Nat) : Nat → List Nat → VSt → VSt
   | 0, _, st => { st with ok := false }
   | fuel+1, batch, st =>
     let st1 := { st with log := st.log ++ batch.map VEv.before }
     let st2 := (List.range g.nbefore).foldl
-      (fun st s => saveAssoc roots (saveBatch g roots fuel) (g.group batch s st.keyed) st) st1
+      (fun st s => saveAssoc fx roots batch (saveBatch fx g roots fuel) (g.group batch s st.keyed) st) st1
     let st3 := { st2 with log := st2.log ++ [VEv.stmt batch], keyed := batch ++ st2.keyed }
     let st4 := ((List.range (g.nslots - g.nbefore)).map (· + g.nbefore)).foldl
-      (fun st s => saveAssoc roots (saveBatch g roots fuel) (g.group batch s st.keyed) st) st3
+      (fun st s => saveAssoc fx roots batch (saveBatch fx g roots fuel) (g.group batch s st.keyed) st) st3
     { st4 with log := st4.log ++ batch.map VEv.after }
 
 /-- the whole operation: `roots` = the record(s) the finisher was called with, `existing` = records whose primary key
     is already set.  Fuel `size + 1` suffices (C13_visit_terminates). -/
-def VGraph.run (g : VGraph) (roots existing : List Nat) : VSt :=
-  saveBatch g roots (g.size + 1) roots { keyed := existing }
+def VGraph.run (g : VGraph) (fx : VFix) (roots existing : List Nat) : VSt :=
+  saveBatch fx g roots (g.size + 1) roots { keyed := existing }
 
 /-- how often the before-hooks of record `n` fired -/
 def saveCount (n : Nat) (log : List VEv) : Nat := log.count (VEv.before n)
